@@ -154,7 +154,7 @@ def layout_attributes(c):
 # ------------------------------------------------------------------------------------ bounded part
 
 T = lambda s, l=None: CaptionNode.create_text(s, layout_info=l)
-VALS = [0, 5, 10, 12.5, 20, 33.33, 50, 80]
+VALS = [0, 5, 10, 12.5, 20, 33.33, 50, 80, 70.1, 10.1, 0.1, 0.2, 29.9]
 
 
 def rand_layout(rng, need_origin=False):
@@ -179,6 +179,17 @@ def with_defaults(L):
     h = L.alignment.horizontal if L.alignment and L.alignment.horizontal else HA.START
     v = L.alignment.vertical if L.alignment and L.alignment.vertical else VA.BOTTOM
     return Layout(origin=L.origin, extent=L.extent, padding=L.padding, alignment=Alignment(h, v))
+
+
+def r2(L):
+    """a layout with every size rounded to the two decimals DFXP prints"""
+    if L is None:
+        return None
+    rs = lambda z: Size(round(z.value, 2), z.unit)
+    return Layout(origin=Point(rs(L.origin.x), rs(L.origin.y)) if L.origin else None,
+                  extent=Stretch(rs(L.extent.horizontal), rs(L.extent.vertical)) if L.extent else None,
+                  padding=Padding(rs(L.padding.before), rs(L.padding.after), rs(L.padding.start), rs(L.padding.end))
+                  if L.padding else None, alignment=L.alignment)
 
 
 def bounded_dfxp_roundtrip(ctx, b):
@@ -217,7 +228,7 @@ def bounded_dfxp_roundtrip(ctx, b):
                     src = el
                     is_lang_level = el is lang_l and lang_l is not None
                     el = el if is_lang_level else el.fit_to_screen()      # div region: known finding of C13
-                want = with_defaults(el)
+                want = r2(with_defaults(el))
                 if gl != want:
                     return False, {"text": t, "read": repr(gl), "expected": repr(want), "output": out[:1500]}
             return True, None
@@ -227,16 +238,33 @@ def bounded_dfxp_roundtrip(ctx, b):
 def bounded_webvtt(ctx, b):
     rng = random.Random(ctx.seed + 7)
     n = 200 if not ctx.thorough else 4000
-    for i in range(n):
-        L = rand_layout(rng, need_origin=True)
+    z = lambda v: Size(v, PCT)
+    crafted = [Layout(origin=Point(z(10), z(10)), extent=Stretch(z(70.1), z(30)), padding=Padding(z(0), z(0), z(0), z(10.1))),
+               Layout(origin=Point(z(0.1), z(0.2)), extent=Stretch(z(40), z(30)), padding=Padding(z(0.1), z(0), z(0.2), z(0))),
+               Layout(origin=Point(z(19.9), z(9.9)), extent=Stretch(z(30.1), z(30)), padding=Padding(z(0.1), z(0), z(0.1), z(0.1))),
+               Layout(origin=Point(z(10), z(10)), extent=Stretch(z(100.1), z(30)), padding=Padding(z(0), z(0), z(0), z(0.1)))]
+    for i in range(n + len(crafted)):
+        L = crafted[i] if i < len(crafted) else rand_layout(rng, need_origin=True)
         level = rng.choice(["node", "caption", "language"])
         cap = Caption(10 ** 6, 2 * 10 ** 6, [T("x", L if level == "node" else None)], layout_info=L if level == "caption" else None)
         cs = CaptionSet({"en": CaptionList([cap], layout_info=L if level == "language" else None)})
 
-        def one():
-            out = WebVTTWriter(fit_to_screen=False).write(cs)
+        def one(L=L, cs=cs, i=i):
+            # the same layout is written by writers with different options in both orders: the
+            # settings must depend on the writer's own options only
+            fits = [True, False] if i % 2 else [False, True]
+            res = []
+            for ft in fits:
+                r = check_one(L, cs, ft)
+                res.append(r)
+            bad = [r for r in res if not r[0]]
+            return (not bad), (bad[0][1] if bad else None)
+
+        def check_one(L0, cs, ft):
+            out = WebVTTWriter(fit_to_screen=ft).write(cs)
             line = [l for l in out.split("\n") if "-->" in l][0]
             settings = line.split(" ", 3)[3] if line.count(" ") >= 3 else ""
+            L = L0.fit_to_screen() if ft else L0          # Layout.fit_to_screen: proved in C13
             x, y = Fraction(L.origin.x.value), Fraction(L.origin.y.value)
             p = L.padding
             exp = []
@@ -249,7 +277,7 @@ def bounded_webvtt(ctx, b):
             if L.extent:
                 wv = Fraction(L.extent.horizontal.value) - (Fraction(p.start.value) + Fraction(p.end.value) if p else 0)
                 exp.append("size:" + ref2(float(wv)) + "%")
-            return settings == " ".join(exp), {"settings": settings, "expected": " ".join(exp), "layout": repr(L)}
+            return settings == " ".join(exp), {"settings": settings, "expected": " ".join(exp), "layout": repr(L0), "fit": ft}
         b.guard(("webvtt", i, level), one, sample={"layout": repr(L), "level": level})
     # nodes of one caption with different layouts -> separate cues with the same times
     la, lb = Layout(origin=Point(Size(10, PCT), Size(10, PCT))), Layout(origin=Point(Size(20, PCT), Size(70, PCT)))
